@@ -102,6 +102,7 @@ class H:
         self.stop_after_first_violation_per_obligation = True
         self._viol_obl = set()
         self.last_neg = None
+        self.n_failed = 0
 
     def ok(self, name, phi, detail=None, extra=None):
         """obligation: phi must hold on the current path for every input.  Returns True if discharged."""
@@ -127,6 +128,7 @@ class H:
             ENG.stats.final_unsat += 1
             return True
         ENG.stats.final_sat += 1
+        self.n_failed += 1
         if name in self._viol_obl and self.stop_after_first_violation_per_obligation and len(self.violations) >= 8:
             return False
         self._viol_obl.add(name)
@@ -166,6 +168,10 @@ class H:
         self.nontrivial.add(key)
 
 
+class _EnoughCounterexamples(BaseException):
+    pass
+
+
 def profile_functions(fn, repo=REPO):
     """run fn once collecting the qualified names of repository functions entered"""
     seen = set()
@@ -196,7 +202,11 @@ def explore_case(h, body, logic=None, incremental=True, const_hash=False, base=(
     ENG.seed = int(os.environ.get("VERIF_SEED", "0") or 0)
     first = [True]
 
+    stop_after = int(os.environ.get("VERIF_STOP_AFTER", "24"))
+
     def wrapped():
+        if h.n_failed >= stop_after and h.violations:
+            raise _EnoughCounterexamples()      # a broken tree: do not spend the whole budget enumerating more paths of this case
         stubs.reset_path_state()
         if first[0]:
             first[0] = False
@@ -208,6 +218,8 @@ def explore_case(h, body, logic=None, incremental=True, const_hash=False, base=(
     err = None
     try:
         ENG.explore(wrapped, max_paths=max_paths, time_budget=time_budget)
+    except _EnoughCounterexamples:
+        pass
     except (Inconclusive, Unsupported) as e:
         err = "%s: %s\n%s" % (type(e).__name__, e, traceback.format_exc(limit=12))
     return {"prop": h.prop, "case": h.case_name, "stats": ENG.stats.as_dict(), "violations": h.violations,
